@@ -52,10 +52,23 @@ pub struct RandomDir {
     pub cb_budget: u32,
 }
 
+/// Plain script: callbacks do nothing, except that the k-th callback of a kind
+/// (counted per top-level operation) panics.
+#[derive(Default, Clone)]
+pub struct FaultPlan {
+    pub trace: Option<(u32, u32)>, // (k, after j children)
+    pub finalize: Option<u32>,
+    pub drop: Option<u32>,
+    pub seen_trace: u32,
+    pub seen_finalize: u32,
+    pub seen_drop: u32,
+}
+
 pub enum Dir {
     Idle,
     Replay,
     Random(Box<RandomDir>),
+    Script(FaultPlan),
 }
 
 thread_local! {
@@ -78,6 +91,7 @@ fn mode() -> u8 {
         Dir::Idle => 0,
         Dir::Replay => 1,
         Dir::Random(_) => 2,
+        Dir::Script(_) => 3,
     })
 }
 
@@ -103,6 +117,17 @@ pub fn on_trace(o: u32) -> Option<usize> {
             }
         })
         .flatten(),
+        3 => DIR.with(|d| match &mut *d.borrow_mut() {
+            Dir::Script(p) => {
+                let k = p.seen_trace;
+                p.seen_trace += 1;
+                match p.trace {
+                    Some((kk, j)) if kk == k && !std::thread::panicking() => Some(j as usize),
+                    _ => None,
+                }
+            }
+            _ => None,
+        }),
         _ => None,
     }
 }
@@ -132,6 +157,24 @@ pub fn next_in_cb<P: Pad>(kind: CbKind, o: u32) -> Decision {
             }
         }
         2 => random_in_cb::<P>(kind, o),
+        3 => DIR.with(|d| match &mut *d.borrow_mut() {
+            Dir::Script(p) => {
+                let (seen, plan) = match kind {
+                    CbKind::Finalize => (&mut p.seen_finalize, p.finalize),
+                    CbKind::Drop => (&mut p.seen_drop, p.drop),
+                    _ => return Decision::Return,
+                };
+                let k = *seen;
+                *seen += 1;
+                if plan == Some(k) && !std::thread::panicking() {
+                    // one-shot: the decision loop asks again after a Do, never after Panic
+                    Decision::Panic
+                } else {
+                    Decision::Return
+                }
+            }
+            _ => Decision::Return,
+        }),
         _ => Decision::Return,
     }
 }
